@@ -19,9 +19,13 @@
                         LeaveIndex, LeaveFilter, LeaveOther, LeaveSafeCall, End), run over the
                         event stream of the INTENDED visiting order (post-order, the index of an
                         index access before its operand).
-                        dev = TRUE switches on the named deviation of the pinned code
-                        Dev_IndexLitCase (a string-literal index is matched as written instead of
-                        in lower case); it is used only to name the site of a violation.
+                        dev = TRUE switches on the named deviation Dev_IndexLitCase (a
+                        string-literal index is matched as written instead of in lower case; a
+                        defect of the pinned tree, repaired by /repo commit 04dec70).  It is
+                        DISABLED in everything that decides a verdict (Agree, FinalInit, the
+                        vectors, PropOK and ModelOK of UntrustedTrace); it is evaluated only for a
+                        record that already violates the property, to name the site of the
+                        violation (index-literal-case) should the defect come back.
    Checked by TLC     : Agree     - automaton reports = declarative reports (same order)
                         FinalInit - the automaton is in its initial state after the last End
    Generator          : expressions are grown one segment / one embedding per step; `tc` is the
@@ -32,6 +36,7 @@ CONSTANTS MaxLen,    \* segments of chain 1 (after the root variable)
           MaxOdd,    \* segments of a chain not spelled `.name` (unless all are spelled alike)
           MaxOff,    \* segments a chain may continue after it has left the tree
           MaxLen2,   \* segments of chain 2 (0: chain 2 stays `matrix.i`)
+          Alike,     \* also chains whose name segments are all spelled alike (all ['name'], all .NAME, all ['NAME'])
           Embs       \* embeddings of the chain(s) into a larger expression
 
 ----------------------------------------------------------------------------
@@ -230,8 +235,8 @@ Kind(g) == IF g.t \in {"var", "dot"} THEN (IF g.r = g.n THEN "plain" ELSE "DOT")
 NameSegs(ch) == {i \in DOMAIN ch : Kind(ch[i]) # "none"}
 Odd(ch) == Cardinality({i \in NameSegs(ch) : Kind(ch[i]) # "plain"})
 \* all name segments after the root are spelled alike (github['event']['issue']['title'] ...)
-Alike(ch) == \A i, j \in (NameSegs(ch) \ {1}) : Kind(ch[i]) = Kind(ch[j])
-SpellOK(ch, maxodd) == IF Odd(ch) <= maxodd THEN TRUE ELSE Alike(ch) /\ Kind(ch[1]) = "plain"
+AllAlike(ch) == \A i, j \in (NameSegs(ch) \ {1}) : Kind(ch[i]) = Kind(ch[j])
+SpellOK(ch, maxodd, alike) == IF Odd(ch) <= maxodd THEN TRUE ELSE alike /\ AllAlike(ch) /\ Kind(ch[1]) = "plain"
 \* at most maxoff segments of the chain lie outside the tree (a node set that is empty stays empty)
 OffOK(ch, maxoff) ==
   LET k == Len(ch) - maxoff IN
@@ -242,13 +247,20 @@ NextNames(ch) ==
   LET f == Fold(Build(ch, Len(ch), MatrixI))
       on == {p[Len(p)] : p \in UNION {Kids[c] : c \in f.ns}} \ {"*"} IN
   on \cup (IF f.ns = {<<"github">>} THEN {"ref"} ELSE {"zzz", "title"})
+\* the chain denotes the array produced by an object filter (x.*, x.*.y ...): the type checker
+\* rejects a string index on it, so only the dot spellings are offered there
+Filtered(ch) ==
+  LET ks == {i \in DOMAIN ch : ch[i].t \notin {"dot", "lit"}}
+      m == CHOOSE i \in ks : \A j \in ks : j <= i IN
+  ch[m].t = "flt"
 NextSegs(ch, withExpr) ==
-  UNION {{Seg("dot", nm, nm), Seg("dot", nm, UP[nm]), Seg("lit", nm, nm), Seg("lit", nm, UP[nm])} : nm \in NextNames(ch)}
+  UNION {{Seg("dot", nm, nm), Seg("dot", nm, UP[nm])}
+         \cup (IF Filtered(ch) THEN {} ELSE {Seg("lit", nm, nm), Seg("lit", nm, UP[nm])}) : nm \in NextNames(ch)}
   \cup {Seg("num", "", ""), Seg("flt", "", "")} \cup (IF withExpr THEN {Seg("expr", "", "")} ELSE {})
 
 PairEmbs == {"paireq", "f2pair", "safethen", "thensafe", "idx2"}
 HasExpr(ch) == \E i \in DOMAIN ch : ch[i].t = "expr"
-UsesE2(ch, m) == IF m \in PairEmbs THEN TRUE ELSE HasExpr(ch)
+UsesE2(ch, m) == IF m \in PairEmbs THEN TRUE ELSE m = "alone" /\ HasExpr(ch)
 
 Embed(m, c1, e2) ==
   LET e1 == Build(c1, Len(c1), e2) IN
@@ -267,6 +279,7 @@ Embed(m, c1, e2) ==
     [] m = "safef" -> Contains(X, Call("toJSON", "tojson", <<e1>>))
     [] m = "safenest" -> Contains(N("idx", "", "", <<X, Call("endsWith", "endswith", <<X, N("str", "", "a", <<>>)>>)>>), e1)
     [] m = "xidx" -> N("prop", "y", "y", <<N("idx", "", "", <<X, e1>>)>>)
+    [] m = "fdot" -> N("prop", "y", "y", <<Call("fromJSON", "fromjson", <<Call("toJSON", "tojson", <<e1>>)>>)>>)
     [] m = "paren" -> Paren(e1)
     [] m = "pmid" -> ApplySeg(c1[Len(c1)], Paren(Build(c1, Len(c1) - 1, e2)), e2)
     [] m = "notpar" -> N("not", "", "!", <<Paren(Cmp(e1, X))>>)
@@ -294,21 +307,23 @@ Grow1 == /\ emb = "alone" /\ c2 = C2Default
          /\ Len(c1) - 1 < MaxLen
          /\ \E g \in NextSegs(c1, TRUE) :
               LET nc == Append(c1, g) IN
-              /\ SpellOK(nc, MaxOdd)
+              /\ SpellOK(nc, MaxOdd, Alike)
               /\ OffOK(nc, MaxOff)
               /\ c1' = nc
          /\ UNCHANGED <<c2, emb>>
 Choose == /\ emb = "alone" /\ c2 = C2Default
           /\ \E m \in Embs \ {"alone"} : EmbOK(m, c1) /\ emb' = m
           /\ UNCHANGED <<c1, c2>>
+\* a second chain is grown only next to a first chain that is still inside the tree
 Start2 == /\ c2 = C2Default /\ MaxLen2 > 0 /\ UsesE2(c1, emb)
+          /\ Fold(Build(c1, Len(c1), MatrixI)).ns # {}
           /\ c2' = <<Seg("var", "github", "github")>>
           /\ UNCHANGED <<c1, emb>>
 Grow2 == /\ c2 # C2Default
          /\ Len(c2) - 1 < MaxLen2
          /\ \E g \in NextSegs(c2, FALSE) :
               LET nc == Append(c2, g) IN
-              /\ SpellOK(nc, 0)
+              /\ SpellOK(nc, 0, FALSE)
               /\ OffOK(nc, 0)
               /\ c2' = nc
          /\ UNCHANGED <<c1, emb>>
